@@ -81,6 +81,11 @@ def cond_text(test: ast.AST, pol: bool) -> str:
     return src(test) if pol else f"not ({src(test)})"
 
 
+# building or inspecting an (immutable) z3 term does not read program state
+TERM_CONSTRUCTORS = {
+    "BitVecVal", "BoolVal", "If", "simplify", "ZeroExt", "SignExt", "Extract", "Concat", "Not", "And", "Or", "con", "is_bv_value",
+    "is_bv", "is_bool", "is_true", "is_false", "ULT", "ULE", "UGT", "UGE", "UDiv", "URem", "SRem", "LShR", "Select", "Store", "eq",
+}
 PURITY = None  # hsa.purity.Purity of the analysed tree (set by hsa.core.Repo); None: every unknown call changes state
 MUTABLE_ATTRS: set | None = None  # attribute names stored to outside constructors (set by hsa.align); None: all
 
@@ -92,10 +97,10 @@ def position_dependent(v) -> bool:
         n = stack.pop()
         if isinstance(n, ast.Call):
             f = n.func
-            if isinstance(f, ast.Name) and f.id == "@stale":
+            if isinstance(f, ast.Name) and f.id.startswith("@stale"):
                 continue  # already marked: what remains around it is evaluated from values, not from state
-            if not (isinstance(f, ast.Name) and (f.id in PURE_CALLS or f.id.startswith("@"))):
-                return True
+            if not (isinstance(f, ast.Name) and (f.id in TERM_CONSTRUCTORS or f.id.startswith("@"))):
+                return True  # even len(x) reads the state of x
         elif isinstance(n, ast.Subscript):
             return True
         elif isinstance(n, ast.Attribute) and (MUTABLE_ATTRS is None or n.attr in MUTABLE_ATTRS):
@@ -128,9 +133,11 @@ class _Sub(ast.NodeTransformer):
                 v = copy.deepcopy(v)
                 # a value that reads mutable state, used after something may have changed that state, is not the
                 # same as evaluating the expression at the point of use
-                if self.env.get("__t", 0) > (self.env.get("__bt") or {}).get(node.id, 0) and position_dependent(v):
-                    if not (isinstance(v, ast.Call) and isinstance(v.func, ast.Name) and v.func.id == "@stale"):
-                        v = ast.Call(func=ast.Name(id="@stale", ctx=ast.Load()), args=[v], keywords=[])
+                bt = (self.env.get("__bt") or {}).get(node.id, 0)
+                if self.env.get("__t", 0) > bt and position_dependent(v):
+                    if not (isinstance(v, ast.Call) and isinstance(v.func, ast.Name) and v.func.id.startswith("@stale")):
+                        # marked with the logical time of the binding: evaluated after that many state changes
+                        v = ast.Call(func=ast.Name(id=f"@stale{max(bt, 0)}", ctx=ast.Load()), args=[v], keywords=[])
                 return v
         return node
 
@@ -789,7 +796,7 @@ def _env_text(env: dict, names) -> tuple:
         if k in env and not k.startswith("__"):
             v = env[k]
             if isinstance(v, ast.AST) and env.get("__t", 0) > bt.get(k, 0) and position_dependent(v):
-                txt = f"@stale({src(v)})"  # bound before the last state change of the block
+                txt = f"@stale{max(bt.get(k, 0), 0)}({src(v)})"  # bound before the last state change of the block
             else:
                 txt = src(v) if isinstance(v, ast.AST) else "?"
             out.append((k, txt))
